@@ -351,6 +351,9 @@ func runC05(ctx *Ctx) {
 		// every other one carries a second case: the merge laws over a commit history, through the command line
 		if ctx.Idx%20 == 19 {
 			runC05Hist(ctx)
+		} else {
+			// the others: a history with three heads, merged at once by `wrgl pull` (c05pull.go)
+			runC05Pull(ctx)
 		}
 		return
 	}
@@ -441,7 +444,176 @@ func runC05(ctx *Ctx) {
 			}
 			runC05Fault(ctx, j)
 		}
+	case 5, 7:
+		// a table of several blocks in which the branches change a handful of rows only
+		sp, stags := c05GenSparse(r)
+		c05Emit(ctx, sp, stags...)
 	}
+}
+
+// c05GenSparse: what merging edits of a big table looks like. The base spans 2..4 blocks (the last one
+// of 1, 2, 128, 254 or 255 rows) and the branches differ from it in 1..4 rows only, each placed in a
+// block drawn uniformly (block edges favoured), so that most blocks are touched by no branch or by a
+// single change. Every changed row follows one scenario, drawn per row: removed by every branch /
+// by one / by all but one; the same edit in every branch / an edit in one; two different edits
+// (conflict); removed here and edited there (conflict). Half of the cases also add a row in one or in
+// all branches. Key in front (single or composite), same columns.
+func c05GenSparse(r *rand.Rand) ([]*TableSpec, []string) {
+	nCols := 3 + r.Intn(2)
+	pk := []int{0}
+	if r.Intn(4) == 0 {
+		pk = []int{0, 1}
+	}
+	blocks := 2 + r.Intn(3)
+	n := 255*(blocks-1) + []int{1, 2, 128, 254, 255}[r.Intn(5)]
+	base := GenTable(r, nCols, n, pk, 0)
+	iskey := map[int]bool{}
+	for _, p := range pk {
+		iskey[p] = true
+	}
+	var nonkey []int
+	for c := 0; c < nCols; c++ {
+		if !iskey[c] {
+			nonkey = append(nonkey, c)
+		}
+	}
+	// GenTable numbers the keys 0..n-1 in a random row order: byRank[v] is the row that sorts v-th
+	byRank := make([]int, n)
+	for i, row := range base.Rows {
+		for _, c := range nonkey {
+			row[c] = []string{"a", "b", "c", ""}[r.Intn(4)]
+		}
+		v := 0
+		if len(pk) == 1 {
+			fmt.Sscanf(row[pk[0]], "%d", &v)
+		} else {
+			hi, lo := 0, 0
+			fmt.Sscanf(row[pk[0]], "%d", &hi)
+			fmt.Sscanf(row[pk[1]], "%d", &lo)
+			v = hi*37 + lo
+		}
+		byRank[v] = i
+	}
+	nb := 2
+	if r.Intn(3) == 0 {
+		nb = 3
+	}
+	// per branch: row index -> nil (removed) or the edited row
+	changes := make([]map[int][]string, nb)
+	for j := range changes {
+		changes[j] = map[int][]string{}
+	}
+	edit := func(i int, mark string) []string {
+		nr := append([]string{}, base.Rows[i]...)
+		c := nonkey[r.Intn(len(nonkey))]
+		nr[c] = nr[c] + mark
+		return nr
+	}
+	scen := map[string]bool{}
+	taken := map[int]bool{}
+	for t, nT := 0, 1+r.Intn(4); t < nT; t++ {
+		blk := r.Intn(blocks)
+		lo, hi := blk*255, blk*255+255
+		if hi > n {
+			hi = n
+		}
+		rank := lo + r.Intn(hi-lo)
+		switch r.Intn(4) {
+		case 0:
+			rank = lo
+		case 1:
+			rank = hi - 1
+		}
+		if taken[rank] {
+			continue
+		}
+		taken[rank] = true
+		i := byRank[rank]
+		one, other := r.Intn(nb), 0
+		if nb > 1 {
+			other = (one + 1 + r.Intn(nb-1)) % nb
+		}
+		switch r.Intn(9) {
+		case 0, 1:
+			scen["removed-by-all"] = true
+			for j := 0; j < nb; j++ {
+				changes[j][i] = nil
+			}
+		case 2:
+			scen["removed-by-one"] = true
+			changes[one][i] = nil
+		case 3:
+			scen["removed-by-all-but-one"] = true
+			for j := 0; j < nb; j++ {
+				if j != one {
+					changes[j][i] = nil
+				}
+			}
+		case 4, 5:
+			scen["same-edit-by-all"] = true
+			nr := edit(i, "'")
+			for j := 0; j < nb; j++ {
+				changes[j][i] = nr
+			}
+		case 6:
+			scen["edit-by-one"] = true
+			changes[one][i] = edit(i, "'")
+		case 7:
+			scen["different-edits"] = true
+			changes[one][i] = edit(i, "'")
+			nr := append([]string{}, base.Rows[i]...)
+			nr[nonkey[0]] += "!"
+			changes[other][i] = nr
+		default:
+			scen["removed-vs-edited"] = true
+			changes[one][i] = nil
+			changes[other][i] = edit(i, "'")
+		}
+	}
+	var added []string
+	addTo := -1 // every branch
+	if r.Intn(2) == 0 {
+		added = make([]string, nCols)
+		for c := range added {
+			added[c] = []string{"p", "q", ""}[r.Intn(3)]
+		}
+		v := n + r.Intn(20)
+		if len(pk) == 1 {
+			added[pk[0]] = fmt.Sprintf("%04d", v)
+		} else {
+			added[pk[0]], added[pk[1]] = fmt.Sprintf("%02d", v/37), fmt.Sprintf("%02d", v%37)
+		}
+		if r.Intn(2) == 0 {
+			addTo = r.Intn(nb)
+			scen["added-by-one"] = true
+		} else {
+			scen["added-by-all"] = true
+		}
+	}
+	specs := []*TableSpec{base}
+	for j := 0; j < nb; j++ {
+		b := &TableSpec{Columns: base.Columns, PK: base.PK}
+		for i, row := range base.Rows {
+			if ch, ok := changes[j][i]; ok {
+				if ch != nil {
+					b.Rows = append(b.Rows, ch)
+				}
+				continue
+			}
+			b.Rows = append(b.Rows, row)
+		}
+		if added != nil && (addTo < 0 || addTo == j) {
+			b.Rows = append(b.Rows, added)
+		}
+		specs = append(specs, b)
+	}
+	tags := []string{"sparse", fmt.Sprintf("blocks=%d", blocks)}
+	for _, k := range []string{"removed-by-all", "removed-by-one", "removed-by-all-but-one", "same-edit-by-all", "edit-by-one", "different-edits", "removed-vs-edited", "added-by-one", "added-by-all"} {
+		if scen[k] {
+			tags = append(tags, k)
+		}
+	}
+	return specs, tags
 }
 
 // c05OverEmptyBase re-bases a tuple on the header-only table: every branch keeps the rows it added or
@@ -469,6 +641,14 @@ func c05OverEmptyBase(specs []*TableSpec) []*TableSpec {
 }
 
 func corpusC05(ctx *Ctx, op string, raw json.RawMessage) {
+	if op == "merge-cli-pull" {
+		var p c05PInput
+		if err := json.Unmarshal(raw, &p); err != nil {
+			panic(err)
+		}
+		c05PullEmit(ctx, &p, "corpus")
+		return
+	}
 	if op == "merge-cli-hist" {
 		var h c05HInput
 		if err := json.Unmarshal(raw, &h); err != nil {
